@@ -307,6 +307,25 @@ def success_terms(ctx):
     return [(e["bb"], e["term"]) for e in exits(ctx) if e["kind"] in ("ok", "other", "delegate")]
 
 
+def success_terms_deep(prog, ctx, depth=2):
+    """the values a handler can return on success, in the handler's vocabulary: a tail call to a local
+    function stands for that function's own success values (parameters bound), and helpers that only
+    build the Response are inlined"""
+    from engine.analysis import resolve_terms
+    out = []
+    for e in exits(ctx):
+        if e["kind"] not in ("ok", "other", "delegate"):
+            continue
+        t = e["term"]
+        cb = prog.body(e["callee"]) if e["kind"] == "delegate" and e.get("callee") else None
+        if cb is not None and cb.kind == "fn" and cb.key != ctx.body.key and depth > 0 and t is not None and t[0] == "call":
+            sub = ctx.sub(cb, params={i + 1: a for i, a in enumerate(t[2])})
+            out += [(e["bb"], x) for _, x in success_terms_deep(prog, sub, depth - 1)]
+            continue
+        out.append((e["bb"], resolve_terms(prog, t, 2, None, ctx.assumptions) if t is not None else t))
+    return out
+
+
 # ------------------------------------------------------------------ constants (P11) and comparisons (P9)
 
 _BIN = {
